@@ -139,9 +139,12 @@ func c29(c *engine.Ctx) {
 	for e := range retry {
 		iff := e[0].Instrs[len(e[0].Instrs)-1]
 		n1++
-		c.Check(engine.GuardedBy(iff, func(k engine.Cmp) bool {
+		nonNil := func(k engine.Cmp) bool {
 			return engine.Unwrap(k.X) == ssa.Value(inv) && engine.IsNil(k.Y) && k.Op == token.NEQ
-		}), "C29.R1", "invokeConn/classified-only-on-error", iff.Pos(), "the classification is consulted only for a non-nil error")
+		}
+		// err != nil dominates the test, or is implied by the retry edge itself (the
+		// whole condition kept in a variable)
+		c.Check(engine.GuardedBy(iff, nonNil) || engine.EdgesWhere(ic, nonNil)[e], "C29.R1", "invokeConn/classified-only-on-error", iff.Pos(), "the classification is consulted only for a non-nil error")
 	}
 	// non-retry returns hand back the attempt's error unchanged
 	for _, r := range engine.Returns(ic) {
